@@ -99,11 +99,21 @@ Fixpoint zeros (n : nat) : bytes := match n with O => [] | S n' => x30 :: zeros 
 (* %0*X with a width on a byte slice: hex, left-padded with '0' *)
 Definition hex_padded (w : nat) (l : bytes) : bytes := let h := hex_bytes l in zeros (w - length h) ++ h.
 
-(* GUID.String(); g.Data4[:2] panics when Data4 has fewer than 2 bytes (cap = len) *)
-Definition guid_string (g : guid) : res bytes :=
+(* GUID.String() before the fix "GUID.String panicked on a GUID with fewer than 8 bytes in Data4":
+   g.Data4[:2] panics when Data4 has fewer than 2 bytes (cap = len); other lengths print what is there *)
+Definition guid_string_old (g : guid) : res bytes :=
   if (length (g4 g) <? 2)%nat then Panic
   else Ok (hex_bytes (be_bytes 4 (g1 g)) ++ [c_dash] ++ hex_bytes (be_bytes 2 (g2 g)) ++ [c_dash] ++ hex_bytes (be_bytes 2 (g3 g)) ++ [c_dash]
            ++ hex_padded 4 (firstn 2 (g4 g)) ++ [c_dash] ++ hex_padded 12 (skipn 2 (g4 g))).
+
+(* GUID.data4(): Data4 as exactly 8 bytes, zero padded / cut *)
+Definition pad8 (l : bytes) : bytes := firstn 8 (l ++ repeat x00 8).
+
+(* GUID.String(): total *)
+Definition guid_text (g : guid) : bytes :=
+  hex_bytes (be_bytes 4 (g1 g)) ++ [c_dash] ++ hex_bytes (be_bytes 2 (g2 g)) ++ [c_dash] ++ hex_bytes (be_bytes 2 (g3 g)) ++ [c_dash]
+  ++ hex_bytes (firstn 2 (pad8 (g4 g))) ++ [c_dash] ++ hex_bytes (skipn 2 (pad8 (g4 g))).
+Definition guid_string (g : guid) : res bytes := Ok (guid_text g).
 
 Definition remove_dashes (s : bytes) : bytes := filter (fun c => negb (Byte.eqb c c_dash)) s.
 
@@ -115,6 +125,8 @@ Definition new_guid (s : bytes) : option guid :=
               else None
   | None => None
   end.
+
+Definition zero_guid : guid := {| g1 := 0; g2 := 0; g3 := 0; g4 := repeat x00 8 |}.
 
 (* ---------- base64.StdEncoding ---------- *)
 Definition b64_char (v : N) : byte :=
@@ -289,13 +301,8 @@ Definition parse_ident (nsid : N) (nsu : bytes) (idval : bytes) : res expnodeid 
   else if has_prefix idval s_s then Ok (new_expanded (NString nsid (drop 2 idval)) nsu)
   else if has_prefix idval s_g then
     match new_guid (drop 2 idval) with
-    | None => Err EInvalidGuid                       (* StringID() == "" *)
-    | Some g => match guid_string g with
-                | Ok [] => Err EInvalidGuid
-                | Ok _ => Ok (new_expanded (NGuid nsid (Some g)) nsu)
-                | Err e => Err e
-                | Panic => Panic
-                end
+    | None => Err EInvalidGuid                       (* NewGUID(...) == nil *)
+    | Some g => Ok (new_expanded (NGuid nsid (Some g)) nsu)
     end
   else if has_prefix idval s_b then
     match b64_decode (drop 2 idval) with
@@ -336,8 +343,13 @@ Definition equal_gen (sfa : bool) (a b : nodeid) : res bool :=
 
 (* ---------- what the property talks about ---------- *)
 
-(* well-formed: the values the constructors NewTwoByteNodeID .. NewByteStringNodeID produce, with a parsable GUID *)
-Definition wf_guid (g : guid) : bool := (g1 g <? 4294967296) && (g2 g <? 65536) && (g3 g <? 65536) && Nat.eqb (length (g4 g)) 8.
+(* ua.NewGUIDNodeID(ns, s): the zero GUID when s is not a GUID *)
+Definition new_guid_nodeid (ns : N) (s : bytes) : nodeid :=
+  NGuid ns (Some (match new_guid s with Some g => g | None => zero_guid end)).
+
+(* well-formed: every value of the NodeID struct reachable through the public API (field ranges are those of the Go types;
+   a GUID may have a Data4 of ANY length: the struct is exported and Decode of a truncated buffer used to leave it short) *)
+Definition wf_guid (g : guid) : bool := (g1 g <? 4294967296) && (g2 g <? 65536) && (g3 g <? 65536).
 Definition wf_id (n : nodeid) : bool :=
   match n with
   | NTwoByte ns id => (ns =? 0) && (id <? 256)
@@ -357,7 +369,7 @@ Definition node_of (n : nodeid) : node :=
   | NTwoByte _ id => NodeNum 0 id
   | NFourByte ns id | NNumeric ns id => NodeNum ns id
   | NString ns s => NodeStr ns s
-  | NGuid ns (Some g) => NodeGuid ns (g1 g) (g2 g) (g3 g) (g4 g)
+  | NGuid ns (Some g) => NodeGuid ns (g1 g) (g2 g) (g3 g) (pad8 (g4 g))      (* a short Data4 denotes the zero-padded GUID *)
   | NOpaque ns b => NodeOpaque ns b
   | _ => NodeNone
   end.
@@ -371,6 +383,7 @@ Definition canon (n : nodeid) : nodeid :=
   match n with
   | NTwoByte _ id => smallest 0 id
   | NFourByte ns id | NNumeric ns id => smallest ns id
+  | NGuid ns (Some g) => NGuid ns (Some {| g1 := g1 g; g2 := g2 g; g3 := g3 g; g4 := pad8 (g4 g) |})
   | _ => n
   end.
 
